@@ -15,18 +15,21 @@ def parseAll {α β} (f : α → Option β) (l : List α) : Option (List β) := 
 def joinNat (l : List Nat) : String := ",".intercalate (l.map toString)
 
 /-! ### mode c10v -/
-def unitDgrams (count shape : Nat) : List Dgram :=
-  (List.range count).map fun i => ⟨i, List.replicate (1 + (i + shape) % 3) 1, (i * (shape + 1)) % 3⟩
+def unitDgrams (count shape : Nat) (bad : List Nat) : List Dgram :=
+  (List.range count).map fun i =>
+    ⟨i, List.replicate (1 + (i + shape) % 3) 1, if bad.contains i then 3 else (i * (shape + 1)) % 3⟩
 
 def showCall (c : KCall) : String :=
   let ds := " ".intercalate (c.offered.map fun d => s!"{d.seq}:{d.bufs.length}:{d.dest}")
   s!"call {if c.mmsg then "mmsg" else "msg"} [{ds}] {c.res}"
 
 def unitStep (_ : Unit) : List String → Unit × List String
-  | "v" :: count :: shape :: outs =>
-    match parseAll parseSOut outs with
+  | "v" :: count :: shape :: toks =>
+    -- tokens b<idx>: datagram idx carries an unsupported address family
+    let bad := toks.filterMap fun w => if w.startsWith "b" then (w.drop 1).toNat? else none
+    match parseAll parseSOut (toks.filter fun w => !w.startsWith "b") with
     | some os =>
-      let v := sendmsgv (unitDgrams (nat! count) (nat! shape)) os
+      let v := sendmsgv (unitDgrams (nat! count) (nat! shape) bad) os
       ((), v.log.map showCall ++ [s!"ret {v.ret} left={v.outs.length}"])
     | none => ((), ["bad-op"])
   | [] => ((), [])
@@ -117,7 +120,7 @@ def totOk (b : List Nat) : Bool := b.length ≤ 64 && (b.sum = 0 || (b.sum ≥ 6
 def opDestOk (fam : Nat) : Op → Bool
   | .send b d _ => destOk fam d && !b.isEmpty && totOk b
   | .trySend b d => destOk fam d && totOk b
-  | .trySend2 c b d => destOk fam d && d ≤ 2 && totOk b && c ≤ 4096
+  | .trySend2 c b d => destOk fam d && d ≤ 3 && totOk b && c ≤ 4096
   | _ => true
 
 def simStep (st : St) : List String → St × List String
